@@ -6,6 +6,10 @@ import Mathlib.LinearAlgebra.Matrix.Hermitian
 import Mathlib.Analysis.SpecialFunctions.Trigonometric.Basic
 import Mathlib.Tactic.Ring
 import Mathlib.Tactic.Abel
+import Mathlib.LinearAlgebra.Matrix.Charpoly.Basic
+import Mathlib.LinearAlgebra.Matrix.NonsingularInverse
+import Mathlib.Analysis.Fourier.FiniteAbelian.PontryaginDuality
+import Mathlib.Data.Matrix.Block
 
 /-! # C08 — the Bloch Hamiltonian of a unit cell reproduces the spectrum of the tiled system
 
@@ -13,7 +17,10 @@ The algebraic heart is `intertwine`: for *any* commutative ring, any finite abel
 multiplicative `φ : G → R` and any list of bonds, the real-space matrix of the tiling maps the plane wave
 `φ ⊗ v` to `φ ⊗ (bloch φ · v)`.  With `G = ℤ/n_x × ℤ/n_y` and `φ` running over its `n_x·n_y` characters (the
 allowed momenta) this is "the union of the Bloch spectra is the spectrum of the tiled Hamiltonian"; it pins the sign
-and direction of the crossing vector, the placement of the conjugate and the accumulation over parallel bonds. -/
+and direction of the crossing vector, the placement of the conjugate and the accumulation over parallel bonds.
+`charpoly_tiled_eq_prod_bloch` (end of file) closes the argument: the plane waves of all characters form an invertible matrix
+(character orthogonality), so the characteristic polynomial of the tiled Hamiltonian *is* the product of the Bloch ones —
+equality of spectra with multiplicities, not only the inclusion the eigenvector lifting gives. -/
 
 namespace C08
 open Matrix
@@ -185,5 +192,143 @@ theorem chi_allowed (nx ny : ℕ) (hx : 0 < nx) (hy : 0 < ny) (mx my a b : ℤ) 
     push_cast
     field_simp
   rw [this, Complex.exp_int_mul_two_pi_mul_I]
+
+end C08
+
+/-! ### the whole spectrum: `charpoly (tiled) = ∏_ψ charpoly (bloch ψ)` -/
+
+namespace C08
+open Matrix Polynomial
+
+variable {K : Type} [Field K] {G : Type} [AddCommGroup G] [Fintype G] [DecidableEq G]
+variable {n : Type} [Fintype n] [DecidableEq n]
+
+/-- characteristic polynomial of a block-diagonal matrix -/
+theorem charpoly_blockDiagonal {o : Type} [Fintype o] [DecidableEq o] (M : o → Matrix n n K) :
+    (blockDiagonal M).charpoly = ∏ k, (M k).charpoly := by
+  unfold Matrix.charpoly
+  rw [← det_blockDiagonal]
+  congr 1
+  ext ⟨i, k⟩ ⟨j, k'⟩
+  simp only [charmatrix_apply, blockDiagonal_apply', diagonal_apply, Prod.mk.injEq]
+  by_cases hk : k = k'
+  · subst hk; simp
+  · simp [hk]
+
+/-- the plane waves `φ_i ⊗ e_s` as the columns of a matrix (`i` runs over the characters, `s` over the sites of the cell) -/
+def waves (φ : G → G → K) : Matrix (G × n) (n × G) K := fun p q => if p.2 = q.1 then φ q.2 p.1 else 0
+
+def wavesInv (V : Matrix G G K) : Matrix (n × G) (G × n) K := fun q p => if p.2 = q.1 then V q.2 p.1 else 0
+
+theorem tiled_mul_waves (φ : G → G → K) (hφ : ∀ i a b, φ i (a + b) = φ i a * φ i b) (bs : List (Bond n G K)) :
+    tiled bs * waves φ = waves φ * blockDiagonal (fun i => bloch (φ i) bs) := by
+  ext p ⟨s', i⟩
+  have h := congrFun (intertwine (φ i) (hφ i) bs (Pi.single s' 1)) p
+  have lhs : (tiled bs * waves φ : Matrix (G × n) (n × G) K) p (s', i) = (tiled bs *ᵥ planeWave (φ i) (Pi.single s' 1)) p := by
+    simp only [mul_apply, mulVec, dotProduct, waves, planeWave]
+    refine Finset.sum_congr rfl fun r _ => ?_
+    by_cases hr : r.2 = s'
+    · simp [hr]
+    · simp [hr, Pi.single_apply]
+  rw [lhs, h]
+  simp only [mul_apply, waves, blockDiagonal_apply, Fintype.sum_prod_type]
+  rw [Finset.sum_eq_single p.2]
+  · rw [Finset.sum_eq_single i]
+    · simp [mulVec, dotProduct, Pi.single_apply]
+    · intro g _ hg; simp [hg]
+    · simp
+  · intro s _ hs
+    apply Finset.sum_eq_zero
+    intro g _
+    simp [Ne.symm hs]
+  · simp
+
+theorem waves_mul_inv (φ : G → G → K) (V : Matrix G G K) (hUV : (Matrix.of fun g i => φ i g) * V = 1) :
+    (waves φ : Matrix (G × n) (n × G) K) * wavesInv V = (1 : Matrix (G × n) (G × n) K) := by
+  ext p q
+  simp only [mul_apply, waves, wavesInv, Fintype.sum_prod_type]
+  rw [Finset.sum_eq_single p.2]
+  · have := congrFun (congrFun hUV p.1) q.1
+    simp only [mul_apply, of_apply] at this
+    by_cases h2 : q.2 = p.2
+    · simp only [h2, if_true]
+      rw [this]
+      obtain ⟨p1, p2⟩ := p; obtain ⟨q1, q2⟩ := q
+      simp only at h2; subst h2
+      simp [one_apply, Prod.mk.injEq]
+    · simp only [h2, if_false, if_true, mul_zero, Finset.sum_const_zero]
+      rw [one_apply, if_neg]
+      intro h; exact h2 (by rw [h])
+  · intro s _ hs
+    apply Finset.sum_eq_zero; intro g _; simp [Ne.symm hs]
+  · simp
+
+theorem inv_mul_waves (φ : G → G → K) (V : Matrix G G K) (hVU : V * (Matrix.of fun g i => φ i g) = 1) :
+    (wavesInv V : Matrix (n × G) (G × n) K) * waves φ = (1 : Matrix (n × G) (n × G) K) := by
+  ext q q'
+  simp only [mul_apply, waves, wavesInv, Fintype.sum_prod_type]
+  rw [Finset.sum_comm]
+  rw [Finset.sum_eq_single q.1]
+  · have := congrFun (congrFun hVU q.2) q'.2
+    simp only [mul_apply, of_apply] at this
+    by_cases h1 : q.1 = q'.1
+    · simp only [h1, if_true]
+      rw [this]
+      obtain ⟨a, b⟩ := q; obtain ⟨a', b'⟩ := q'
+      simp only at h1; subst h1
+      simp [one_apply, Prod.mk.injEq]
+    · simp only [h1, if_false, if_true, mul_zero, Finset.sum_const_zero]
+      rw [one_apply, if_neg]
+      intro h; exact h1 (by rw [h])
+  · intro s _ hs
+    apply Finset.sum_eq_zero; intro g _; simp [hs]
+  · simp
+
+/-- **C08, the whole spectrum**: if the plane-wave matrix of the characters `φ_i` is invertible, the characteristic polynomial
+    of the tiled Hamiltonian is the product of the characteristic polynomials of the Bloch Hamiltonians -/
+theorem charpoly_tiled_of_invertible (φ : G → G → K) (hφ : ∀ i a b, φ i (a + b) = φ i a * φ i b) (V : Matrix G G K)
+    (hUV : (Matrix.of fun g i => φ i g) * V = 1) (bs : List (Bond n G K)) :
+    (tiled bs).charpoly = ∏ i, (bloch (φ i) bs).charpoly := by
+  have hVU : V * (Matrix.of fun g i => φ i g) = 1 := mul_eq_one_comm.mp hUV
+  have h1 := tiled_mul_waves (n := n) φ hφ bs
+  have h2 := waves_mul_inv (n := n) φ V hUV
+  have h3 := inv_mul_waves (n := n) φ V hVU
+  have e : tiled bs = waves φ * (blockDiagonal (fun i => bloch (φ i) bs) * wavesInv V) := by
+    rw [← Matrix.mul_assoc, ← h1, Matrix.mul_assoc, h2, Matrix.mul_one]
+  rw [e, charpoly_mul_comm_of_le _ _ (by simp [Fintype.card_prod, Nat.mul_comm]), Matrix.mul_assoc, h3, Matrix.mul_one,
+    charpoly_blockDiagonal]
+  simp [Fintype.card_prod, Nat.mul_comm]
+
+end C08
+
+namespace C08
+open Matrix Polynomial
+
+variable {G : Type} [AddCommGroup G] [Fintype G] [DecidableEq G]
+variable {n : Type} [Fintype n] [DecidableEq n]
+
+/-- **C08 — the union of the Bloch spectra is the spectrum of the tiled Hamiltonian, with multiplicities**: for every finite
+    abelian group `G` of cells (for koala `ℤ/n_x × ℤ/n_y`) and every list of bonds with complex weights, the characteristic
+    polynomial of the real-space matrix of the tiling is the product, over all characters `ψ` of `G` (the allowed momenta),
+    of the characteristic polynomials of the Bloch matrices. -/
+theorem charpoly_tiled_eq_prod_bloch (bs : List (Bond n G ℂ)) :
+    (tiled bs).charpoly = ∏ ψ : AddChar G ℂ, (bloch (fun g => ψ g) bs).charpoly := by
+  classical
+  let e : G ≃ AddChar G ℂ := Fintype.equivOfCardEq (by rw [AddChar.card_eq])
+  have hne : (Fintype.card G : ℂ) ≠ 0 := by exact_mod_cast Fintype.card_ne_zero
+  have h := charpoly_tiled_of_invertible (n := n) (fun i g => e i g) (fun i a b => (e i).map_add_eq_mul a b)
+    (Matrix.of fun i g => (Fintype.card G : ℂ)⁻¹ * e i (-g)) ?_ bs
+  · rw [h]
+    exact Equiv.prod_comp e (fun ψ : AddChar G ℂ => (bloch (fun g => ψ g) bs).charpoly)
+  · ext g g'
+    simp only [mul_apply, of_apply]
+    have : ∀ i, e i g * ((Fintype.card G : ℂ)⁻¹ * e i (-g')) = (Fintype.card G : ℂ)⁻¹ * e i (g - g') := by
+      intro i; rw [sub_eq_add_neg, (e i).map_add_eq_mul]; ring
+    simp_rw [this]
+    rw [← Finset.mul_sum, Equiv.sum_comp e (fun ψ : AddChar G ℂ => ψ (g - g')), AddChar.sum_apply_eq_ite]
+    by_cases hg : g = g'
+    · subst hg; simp [hne]
+    · have : g - g' ≠ 0 := sub_ne_zero.mpr hg
+      simp [this, one_apply, hg]
 
 end C08
